@@ -2919,6 +2919,10 @@ class UnregisteredAttr(ParametrizedAttribute, BuiltinAttribute, ABC):
         This function should not be called directly. Use methods from
         `Context` to get an `UnregisteredAttr` type.
         """
+        # The same (name, is_type) always gives the same class, so that equal
+        # unregistered attributes obtained through different contexts are equal.
+        if (cached := _UNREGISTERED_ATTR_CLASSES.get((name, is_type))) is not None:
+            return cached
 
         @irdl_attr_definition(init=False)
         class UnregisteredAttrWithName(UnregisteredAttr):
@@ -2936,10 +2940,12 @@ class UnregisteredAttr(ParametrizedAttribute, BuiltinAttribute, ABC):
                 if self.is_type.data != int(is_type):
                     raise VerifyException("Unregistered attribute is_type mismatch")
 
-        if is_type:
-            return UnregisteredAttrTypeWithName
-        else:
-            return UnregisteredAttrWithName
+        res = UnregisteredAttrTypeWithName if is_type else UnregisteredAttrWithName
+        _UNREGISTERED_ATTR_CLASSES[(name, is_type)] = res
+        return res
+
+
+_UNREGISTERED_ATTR_CLASSES: dict[tuple[str, bool], type[UnregisteredAttr]] = {}
 
 
 @irdl_op_definition
